@@ -150,5 +150,32 @@ func init() {
 		}
 		return t
 	}
+	// the view of C06 plus a fifo and a character device (entries that are announced but carry no content)
+	extraTrees["v1spec"] = func() fsmodel.Tree {
+		t := Tree("v1")
+		t = append(t, fsmodel.Node{Path: "p", Kind: fsmodel.Fifo, Perm: 0600, Mtime: t1 + 8}, fsmodel.Node{Path: "q", Kind: fsmodel.Char, Perm: 0600, Mtime: t1 + 9, Major: 1, Minor: 3})
+		t.Sort()
+		return t
+	}
+	// file sizes just below the 32 KiB chunk: 32768-k for k around every power of two up to 1024 (a chunk minus a
+	// header, minus a length prefix, ...) and the same one chunk further
+	extraTrees["v3"] = func() fsmodel.Tree {
+		var t fsmodel.Tree
+		i := 0
+		for p := 1; p <= 1024; p *= 2 {
+			for _, k := range []int{p - 1, p, p + 1} {
+				if k == 0 || (p > 2 && k == p-1 && false) {
+					continue
+				}
+				t = append(t, f(fmt.Sprintf("s%02d-%d", i, 32768-k), 40+i, 32768-k, t1+int64(i)))
+				i++
+			}
+		}
+		for _, k := range []int{64, 63, 65, 1} {
+			t = append(t, f(fmt.Sprintf("t%02d-%d", i, 65536-k), 40+i, 65536-k, t1+int64(i)))
+			i++
+		}
+		return t
+	}
 	extraTrees["one5"] = func() fsmodel.Tree { return fsmodel.Tree{f("a", 1, 5, t1)} }
 }
